@@ -122,6 +122,13 @@ def gen(tier, rnd):
                 msg = 'GET / HTTP/1.1\r\n%s: %s\r\nX-Other: 1\r\n%s: %s\r\n\r\n' % (sent, vals.get(name, 'first'), dup, vals2[name])
             qs = variants(name) + ['X-Absent', name + 'x']
             L.append('hlookup %s %s' % (hx(msg), ','.join(hx(q) for q in qs)))
+    # "value bytes intact": a value ends at the first CR LF pair and at nothing else - every byte value (a lone CR included; LF excepted)
+    # inside the value of an unregistered field, once alone and once doubled, followed by another field
+    for b in range(256):
+        if b == 10: continue
+        for mid in (bytes([b]), bytes([b, b]), b'x' + bytes([b])):
+            msg = b'GET / HTTP/1.1\r\nX-Bytes: a' + mid + b'b\r\nX-Other: 1\r\n\r\n'
+            L.append('hlookup %s %s' % (msg.hex(), ','.join(hx(q) for q in ('X-Bytes', 'x-bytes', 'X-BYTES', 'X-Other', 'X-Absent'))))
     return L
 
 BAD = ('ASAN', 'UBSAN', 'HANG', 'CRASH', 'TERMINATE', 'MISSING')
